@@ -302,6 +302,11 @@ static sb_error_t sb_i_buffer_ensure_free_space(sb_buffer_t* buf, size_t min_spa
         return SB_ENOMEM;
     }
 
+    if (desired_capacity == 0) {
+        /* a view of zero bytes: doubling zero would never get anywhere */
+        desired_capacity = 1;
+    }
+
     while (new_size > desired_capacity) {
         if (desired_capacity >= SIZE_MAX - 1) {
             return SB_ENOMEM;
